@@ -503,12 +503,19 @@ def run(tier):
                       "drv/linepart.c and drv/linepartpp.cpp project without judgement (exact integer->double, struct fields copied)",
                       "coordinates are integers below 2^23 (times a power of two): the crossing fraction's 16-bit code is then decided exactly",
                       "the exhaustive model is bounded (see MC cfgs); beyond it coverage is by the seeded and templated runs"]
+    # extension X18: graph transform and polyline consumers of the parts (checks/x18_transform.py, docs/X18_transform.md)
+    import x18_transform
+    if x18_transform.enabled():
+        x18_transform.run_part(ck, tier)
     return ck.finish()
 
 
 def replay(path):
     d = json.load(open(path))
     det = d["detail"]
+    if det.get("part") == "x18":
+        import x18_transform
+        return x18_transform.replay(det, path)
     beh = det.get("behaviour_full") or det.get("behaviour")
     if not beh or isinstance(beh[0].get("arg", {}).get("data"), str):
         print(json.dumps(det, indent=1)[:4000])
